@@ -123,7 +123,8 @@ PROPERTIES["C06"] = {
                   "VerifC06GoStructUnion", "VerifC06JavaStructUnion", "VerifC06PHPStructUnion", "VerifC06PythonStructUnion",
                   "VerifC06GoUnionTwice", "VerifC06JavaUnionTwice", "VerifC06PHPUnionTwice", "VerifC06PythonUnionTwice",
                   "VerifC06GoIntersectionUnion", "VerifC06JavaIntersectionUnion",
-                  "VerifC06GoIntConstants", "VerifC06JavaIntConstants", "VerifC06PHPIntConstants", "VerifC06PythonIntConstants"],
+                  "VerifC06GoIntConstants", "VerifC06JavaIntConstants", "VerifC06PHPIntConstants", "VerifC06PythonIntConstants", "VerifC06GoEnumObjectNames",
+                  "VerifC06GoNullOrder", "VerifC06JavaNullOrder", "VerifC06PHPNullOrder", "VerifC06PythonNullOrder"],
                  "internal/zzverif/hchains", test_pkg_name="hchains", needs_leaf=True,
                  quick_entries=["VerifC06Go", "VerifC06Java", "VerifC06PHP", "VerifC06Python", "VerifC06TypeScript",
                   "VerifC06GoSpine", "VerifC06JavaSpine", "VerifC06PHPSpine", "VerifC06PythonSpine",
@@ -132,7 +133,8 @@ PROPERTIES["C06"] = {
                   "VerifC06GoStructUnion", "VerifC06PythonStructUnion",
                   "VerifC06GoUnionTwice", "VerifC06JavaUnionTwice", "VerifC06PHPUnionTwice", "VerifC06PythonUnionTwice",
                   "VerifC06GoIntersectionUnion", "VerifC06JavaIntersectionUnion",
-                  "VerifC06GoIntConstants", "VerifC06JavaIntConstants", "VerifC06PHPIntConstants", "VerifC06PythonIntConstants"])],
+                  "VerifC06GoIntConstants", "VerifC06JavaIntConstants", "VerifC06PHPIntConstants", "VerifC06PythonIntConstants", "VerifC06GoEnumObjectNames",
+                  "VerifC06GoNullOrder", "VerifC06JavaNullOrder", "VerifC06PHPNullOrder", "VerifC06PythonNullOrder"])],
 }
 
 
@@ -176,10 +178,10 @@ PROPERTIES["C04"] = {
     "runs": lambda ctx: [
              Run("chains", ["./internal/zzverif/hchains"], CHAINS_HARNESS,
                  ["VerifC06Go", "VerifC06Java", "VerifC06PHP", "VerifC06Python", "VerifC06TypeScript", "VerifC06GoSpine", "VerifC06JavaSpine", "VerifC06PHPSpine", "VerifC06PythonSpine",
-                  "VerifC06GoIntConstants", "VerifC06JavaIntConstants", "VerifC06PHPIntConstants", "VerifC06PythonIntConstants", "VerifC06GoUnionTwice", "VerifC06GoIntersectionUnion", "VerifC06JavaIntersectionUnion", "VerifC06GoConstants", "VerifC06PHPConstants", "VerifC06GoIntersection"],
+                  "VerifC06GoIntConstants", "VerifC06JavaIntConstants", "VerifC06PHPIntConstants", "VerifC06PythonIntConstants", "VerifC06GoUnionTwice", "VerifC06GoIntersectionUnion", "VerifC06JavaIntersectionUnion", "VerifC06GoConstants", "VerifC06PHPConstants", "VerifC06GoIntersection", "VerifC06GoStructUnion", "VerifC06JavaStructUnion"],
                  "internal/zzverif/hchains", test_pkg_name="hchains", needs_leaf=True, panics="violation", judge="panic",
                  quick_entries=["VerifC06Go", "VerifC06Java", "VerifC06PHP", "VerifC06Python", "VerifC06GoSpine", "VerifC06PHPSpine",
-                  "VerifC06GoIntConstants", "VerifC06JavaIntConstants", "VerifC06PHPIntConstants", "VerifC06PythonIntConstants", "VerifC06GoUnionTwice", "VerifC06GoIntersectionUnion", "VerifC06JavaIntersectionUnion", "VerifC06GoConstants", "VerifC06PHPConstants", "VerifC06GoIntersection"]),
+                  "VerifC06GoIntConstants", "VerifC06JavaIntConstants", "VerifC06PHPIntConstants", "VerifC06PythonIntConstants", "VerifC06GoUnionTwice", "VerifC06GoIntersectionUnion", "VerifC06JavaIntersectionUnion", "VerifC06GoConstants", "VerifC06PHPConstants", "VerifC06GoIntersection", "VerifC06GoStructUnion", "VerifC06JavaStructUnion"]),
              Run("compiler", ["./internal/ast/compiler"], COMPILER_HARNESS,
                  ["VerifC07UserPasses", "VerifC05Rename", "VerifC05Prefix", "VerifC05Duplicate", "VerifC05Unspec", "VerifC05ReplaceReference", "VerifC05AllowedObjects"],
                  "internal/ast/compiler", needs_leaf=True, panics="violation", judge="panic", quick_entries=["VerifC07UserPasses", "VerifC05AllowedObjects", "VerifC05Duplicate"]),
@@ -188,7 +190,7 @@ PROPERTIES["C04"] = {
              Run("jsonschema_jenny", ["./internal/jennies/jsonschema"], _h(("internal/jennies/jsonschema/zz_verif_c12.go", "harness/jjsonschema/zz_verif_c12.go")),
                  ["VerifC12GenerateSchema"], "internal/jennies/jsonschema", test_pkg_name="jsonschema", needs_leaf=True, panics="violation", judge="panic"),
              Run("hast", ["./internal/zzverif/hast"], HAST_HARNESS, ["VerifC16FromAST"], "internal/zzverif/hast", test_pkg_name="hast", panics="violation", judge="panic"),
-             Run("veneers", ["./internal/zzverif/hveneers"], VENEERS_HARNESS, ["VerifC17OptionRule", "VerifC17BuilderRule", "VerifC17MergeInto", "VerifC17OptionRulePair", "VerifC17ArityPair", "VerifC17RenameThenInitialize", "VerifC17SelectorsAfterBuilderRules"],
+             Run("veneers", ["./internal/zzverif/hveneers"], VENEERS_HARNESS, ["VerifC17OptionRule", "VerifC17BuilderRule", "VerifC17MergeInto", "VerifC17OptionRulePair", "VerifC17ArityPair", "VerifC17RenameThenInitialize", "VerifC17SelectorsAfterBuilderRules", "VerifC17RuleSetsOrder"],
                  "internal/zzverif/hveneers", test_pkg_name="hveneers", needs_leaf=True, panics="violation", judge="panic")],
 }
 
@@ -239,7 +241,7 @@ PROPERTIES["C17"] = {
     "level_note": "Bounds: one package, builders Bar/Foo/foo, Foo with 2 fields over 7 kinds; one rule per run (rule sequences are outside the quick bound); "
                   "merge_into/compose/initialize/add_option/add_factory rules are not covered yet. Reference contracts: DESIGN.md appendix B.",
     "bounds": {"builders": "3 (derived by FromAST), Foo: 2 fields x 7 kinds", "rules": "11 option actions + 5 builder rules, one at a time, selector names symbolic incl. case variants and absent names"},
-    "runs": [Run("veneers", ["./internal/zzverif/hveneers"], VENEERS_HARNESS, ["VerifC17OptionRule", "VerifC17BuilderRule", "VerifC17MergeInto", "VerifC17OptionRulePair", "VerifC17ArityPair", "VerifC17RenameThenInitialize", "VerifC17SelectorsAfterBuilderRules"],
+    "runs": [Run("veneers", ["./internal/zzverif/hveneers"], VENEERS_HARNESS, ["VerifC17OptionRule", "VerifC17BuilderRule", "VerifC17MergeInto", "VerifC17OptionRulePair", "VerifC17ArityPair", "VerifC17RenameThenInitialize", "VerifC17SelectorsAfterBuilderRules", "VerifC17RuleSetsOrder"],
                  "internal/zzverif/hveneers", test_pkg_name="hveneers", needs_leaf=True,
                  allow_unreached=["C17: merge_into lost the destination builder", "C17: merge_into dropped a source option"])],
 }
@@ -545,6 +547,10 @@ _add_run("C10", Run("chains", ["./internal/zzverif/hchains"], CHAINS_HARNESS, ["
 _add_run("C10", Run("openapi_enums", ["./internal/openapi"], OPENAPI_HARNESS, ["VerifParserOpenAPI"], "internal/openapi", needs_leaf=True, judge="prefix:C10"))
 _add_run("C10", Run("constant_union", ["./internal/ast/compiler"], COMPILER_HARNESS, ["VerifC10ConstantUnionDefault"], "internal/ast/compiler", needs_leaf=True, judge="prefix:C10"))
 _add_run("C08", Run("openapi_constraints", ["./internal/openapi"], OPENAPI_HARNESS, ["VerifC08OpenAPIConstraints"], "internal/openapi", needs_leaf=True, judge="prefix:C08"))
+_add_run("C17", Run("yaml_rules", ["./internal/yaml"], {"internal/yaml/zz_verif_c04_yaml.go": "harness/pyaml/zz_verif_c04_yaml.go"}, ["VerifC17YAMLMergeDestination"], "internal/yaml",
+                    needs_leaf=True, judge="prefix:C17"))
+_add_run("C07", Run("variant_packages", ["./internal/zzverif/hveneers"], VENEERS_HARNESS, ["VerifC07SchemasForVariant"], "internal/zzverif/hveneers", test_pkg_name="hveneers",
+                    needs_leaf=True, judge="prefix:C07"))
 _add_run("C07", Run("output_languages", ["./internal/codegen"], {"internal/codegen/zz_verif_c16_context.go": "harness/pcodegen/zz_verif_c16_context.go"},
                     ["VerifC07OutputLanguages"], "internal/codegen", needs_leaf=True, judge="prefix:C07"))
 _add_run("C16", Run("language_context", ["./internal/codegen"], {"internal/codegen/zz_verif_c16_context.go": "harness/pcodegen/zz_verif_c16_context.go"},
